@@ -10,7 +10,9 @@ BOUNDS = ("FCB/FDB lists of length 1,2,3,8,64 with up to 4 symbolic elements (de
           "symbols; the other elements concrete); RMB n with n symbolic over every spelling class (size and value field "
           "checked structurally) and concrete n in {0,1,2,255,256,1000} for the bytes; FCC by exhaustive enumeration "
           "(NOT a solver verdict): all strings of length <=1 (quick) / <=2 (thorough) over printable ASCII for 4 "
-          "delimiters plus a boundary corpus up to 255 characters; EQU/ORG/SETDP/NAM/END/INCLUDE emit nothing")
+          "delimiters plus a boundary corpus up to 255 characters (incl. tabs and the delimiter inside the comment); "
+          "FCB/FDB lists holding labels, label expressions, symbols defined after use and a trailing comma, at a symbolic "
+          "origin; EQU/ORG/SETDP/NAM/END/INCLUDE emit nothing")
 OUTSIDE = "FCC content is enumerated, not symbolic (strings pass through the line regex); lists longer than 64"
 ASSUMPTIONS = []
 
@@ -82,6 +84,50 @@ def make_list(kind, length, sym_pos, classes, via_equ=False):
                "cls0": classes[0] if classes else None}
         return ctx.known(PID, {"part": "list", "directive": kind, "single": length == 1, "via_equ": via_equ}, env), info
     return Ob(oid, body, timeout=(400 if len(sym_pos) > 3 else 90), tags={"part": "list", "directive": kind}, text="%s list len %d sym@%s %s" % (kind, length, sym_pos, classes))
+
+
+def make_list_labels(kind, variant):
+    """labels, label expressions and symbols defined AFTER use inside FCB/FDB lists (jump tables)"""
+    oid = "C05:%s:labels:%s" % (kind, variant)
+    width = 1 if kind == "FCB" else 2
+
+    def body(ctx):
+        t, o = ctx.lit("H4", "o")
+        ctx.assume(o <= (200 if kind == "FCB" else 60000))
+        tk, k = ctx.lit("D3" if kind == "FDB" else "D2", "k")
+        if kind == "FCB":
+            ctx.assume(k <= 20)
+        items = {"plain": ["LB", "LA", tk, "7"], "expr": ["LB+%s" % tk, "LA-1", "K", "%s+1" % tk], "after": ["K", "LATER", "LB", "K+1"],
+                 "trailing": ["LB", tk, ""], "first": ["LA", "1"]}[variant]
+        n = len([x for x in items if x != ""])
+        lines = [" ORG %s" % t, "K EQU 9", "LB NOP", "D %s %s" % (kind, ",".join(items)), "LA NOP", "LATER EQU 3"]
+        out = assemble(lines)
+        info = {"lines": lines, "outcome": out.describe()}
+        lb, la = o, o + 1 + n * width
+        vals = {"plain": [lb, la, k, 7], "expr": [lb + k, la - 1, 9, k + 1], "after": [9, 3, lb, 10], "trailing": [lb, k], "first": [la, 1]}[variant]
+        allvalid = True
+        exp = []
+        for v in vals:
+            ok1, bs = expected(kind, v)
+            if not ok1:
+                allvalid = False
+            exp = exp + bs
+        if out.kind in ("internal", "loop"):
+            return True, info
+        if out.kind == "diag":
+            ok = not allvalid
+        else:
+            st = out.program.statements[3]
+            try:
+                b = stmt_bytes(st)
+            except Exception as e:  # noqa: BLE001
+                b = None
+            info["bytes"] = b
+            ok = allvalid and b is not None and b == exp and out.program.statements[4].code_pkg.address.int == la
+        if ok:
+            return True, info
+        return ctx.known(PID, {"part": "list-labels", "directive": kind}, {"kind": out.kind, "variant": variant}), info
+    return Ob(oid, body, timeout=120, tags={"part": "list-labels", "directive": kind}, text="%s list with labels / expressions / later symbols (%s)" % (kind, variant))
 
 
 def make_rmb_sym(cls):
@@ -271,6 +317,9 @@ def obligations(tier, seed):
     obs.append(make_nobytes("END-op", lambda ctx: [" END A"], "END A"))
     obs.append(make_nobytes("END-lit", lit_line(" END %s", "H4"), "END <H4>"))
     obs.append(make_nobytes("NAM-END", lambda ctx: [" NAM X", " SETDP 0", "K EQU 5", " END E"], "NAM/SETDP/EQU/END"))
+    for kind in ("FCB", "FDB"):
+        for variant in ("plain", "expr", "after", "trailing", "first"):
+            obs.append(make_list_labels(kind, variant))
     for name, cases in fcc_cases(tier, seed).items():
         if len(cases) > 3000:
             for i in range(0, len(cases), 3000):
